@@ -877,6 +877,19 @@ def check_scan_loops(ctx, rep, funcs, rule=RULE + '.W7'):
     return n
 
 
+def _names_a_block(ctx, f, call):
+    """the call turns a set of states into a state name: its callee (possibly through a local alias `state = _block_name`)
+    prints its parameter with print_state_set"""
+    from .closed import _is_namer
+    if _is_namer(ctx, f, call):
+        return True
+    if isinstance(call.func, ast.Name):
+        defs = [n.value for n in walk_no_nested(f.node) if isinstance(n, ast.Assign) and len(n.targets) == 1 and isinstance(n.targets[0], ast.Name) and n.targets[0].id == call.func.id]
+        if len(defs) == 1 and isinstance(defs[0], (ast.Name, ast.Attribute)):
+            return _is_namer(ctx, f, ast.Call(func=defs[0], args=call.args, keywords=[]))
+    return False
+
+
 def check_representatives(ctx, rep, f, rule=RULE + '.rep'):
     """a block is extended / named on the strength of a comparison with a REPRESENTATIVE of that same block:
        r = set_element(S) ... if <test mentioning r>: X.add(v)        requires S is X
@@ -918,7 +931,7 @@ def check_representatives(ctx, rep, f, rule=RULE + '.rep'):
             if isinstance(s, ast.Assign) and len(s.targets) == 1 and isinstance(s.targets[0], ast.Name) and isinstance(s.value, ast.Call) and isinstance(s.value.func, ast.Name):
                 if s.value.func.id == 'set_element' and len(s.value.args) == 1 and isinstance(s.value.args[0], ast.Name):
                     local_reps[s.targets[0].id] = (s.value.args[0].id, s)
-                elif s.value.func.id in f.nested and len(s.value.args) == 1 and isinstance(s.value.args[0], ast.Name):
+                elif len(s.value.args) == 1 and isinstance(s.value.args[0], ast.Name) and (s.value.func.id in f.nested or _names_a_block(ctx, f, s.value)):
                     names[s.targets[0].id] = s.value.args[0].id
         for s in ast.walk(loop):
             if isinstance(s, ast.Assign) and isinstance(s.targets[0], ast.Subscript) and isinstance(s.targets[0].slice, ast.Tuple):
